@@ -232,19 +232,30 @@ def run_inprocess(path, hist, bodies, rev_index, cmd, target, config, fail):
     event.listen(eng, "before_cursor_execute", orc.before_cursor_execute)
     holder = {}
     orc.ctx_getter = lambda: holder["ctx"]
+    shape = config.get("shape", "stock")
+
+    def shaped(conn):
+        ctx = MigrationContext.configure(conn, opts=opts)
+        holder["ctx"] = ctx
+        if shape == "heads":
+            ctx.get_current_heads()
+        elif shape == "select":
+            conn.exec_driver_sql("SELECT 1").fetchall()
+        elif shape == "ctxexec":
+            ctx.execute("SELECT 1")
+        if shape == "no_outer":
+            ctx.run_migrations()
+        else:
+            with ctx.begin_transaction():
+                ctx.run_migrations()
+
     try:
         with eng.connect() as conn:
             if config.get("external"):
                 with conn.begin():
-                    ctx = MigrationContext.configure(conn, opts=opts)
-                    holder["ctx"] = ctx
-                    with ctx.begin_transaction():
-                        ctx.run_migrations()
+                    shaped(conn)
             else:
-                ctx = MigrationContext.configure(conn, opts=opts)
-                holder["ctx"] = ctx
-                with ctx.begin_transaction():
-                    ctx.run_migrations()
+                shaped(conn)
         res = "ok"
     except INJECTED:
         res = "boom"
@@ -282,6 +293,23 @@ def downgrade(%(args)s):
     context.config.attributes["verif_oracle"].body(%(rid)r, "down"%(pass_args)s)
 '''
 
+ENV_NEEDLE2 = "\n        with context.begin_transaction():\n            context.run_migrations()\n"
+ENV_PATCH2 = '''
+        # env.py variants (harness): something executed on the migration connection between configure() and
+        # begin_transaction(), or run_migrations() without the outer begin_transaction()
+        _shape = config.attributes.get("verif_env_shape", "stock")
+        if _shape == "heads":
+            context.get_context().get_current_heads()
+        elif _shape == "select":
+            connection.exec_driver_sql("SELECT 1").fetchall()
+        elif _shape == "ctxexec":
+            context.execute("SELECT 1")
+        if _shape == "no_outer":
+            context.run_migrations()
+        else:
+            with context.begin_transaction():
+                context.run_migrations()
+'''
 ENV_NEEDLE = "connection=connection, target_metadata=target_metadata"
 ENV_PATCH = "connection=connection, target_metadata=target_metadata, **config.attributes.get('verif_configure', {})"
 
@@ -323,9 +351,9 @@ def make_script_dir(scratch, hist, path, template="generic", patch_env=False, na
     if patch_env:
         envp = os.path.join(sdir, "env.py")
         src = open(envp).read()
-        if src.count(ENV_NEEDLE) == 1:
+        if src.count(ENV_NEEDLE) == 1 and src.count(ENV_NEEDLE2) == 1:
             with open(envp, "w") as f:
-                f.write(src.replace(ENV_NEEDLE, ENV_PATCH))
+                f.write(src.replace(ENV_NEEDLE, ENV_PATCH).replace(ENV_NEEDLE2, ENV_PATCH2))
             patched = True
     cfg.attributes["verif_env_patched"] = patched
     multi = template == "multidb"
@@ -338,7 +366,7 @@ def make_script_dir(scratch, hist, path, template="generic", patch_env=False, na
     return cfg
 
 
-def run_command(cfg, bodies, rev_index, cmd, target, engine_mode, fail, configure_kw=None, hook=False):
+def run_command(cfg, bodies, rev_index, cmd, target, engine_mode, fail, configure_kw=None, hook=False, shape="stock"):
     """alembic.command.upgrade/downgrade through the shipped env.py (pysqlite default; with
     engine_mode == "recipe" the recipe is installed on the Engine class for the duration).
     configure_kw / hook: only with a patched env.py (see make_script_dir)."""
@@ -354,6 +382,7 @@ def run_command(cfg, bodies, rev_index, cmd, target, engine_mode, fail, configur
     if hook:
         kw["on_version_apply"] = orc.on_version_apply
     cfg.attributes["verif_configure"] = kw
+    cfg.attributes["verif_env_shape"] = shape
     removers = []
     if engine_mode == "recipe":
         removers.append(install_recipe(Engine))
